@@ -7,6 +7,7 @@ CONSTANTS Kind = "stream"
           HasPub = TRUE
           Slot = 0
           SidOff = 0
+          AsImplemented = FALSE
           LibSource = FALSE
 INVARIANT NoClauseFails
 INVARIANT DeliveredIsPrefixOfHanded
